@@ -203,8 +203,6 @@ pub struct Solo {
     pub w: Watch,
     /// received and not yet answered by the application: (id, what is owed)
     pub inbox: Vec<(u32, InNeed)>,
-    /// ids the application holds without having used them
-    pub held: Vec<u32>,
     pub chunk: u16,
     pub now_ms: u64,
     pub deadline: [Option<u64>; 3],
@@ -227,7 +225,6 @@ impl Solo {
             cfg,
             w,
             inbox: vec![],
-            held: vec![],
             chunk: 0,
             now_ms: 0,
             deadline: [None; 3],
@@ -239,6 +236,24 @@ impl Solo {
             connects: 0,
             ops_done: 0,
         }
+    }
+
+    /// ids the application holds without having handed them to an accepted send
+    pub fn held(&self) -> Vec<u32> {
+        let m = &self.w.m;
+        m.ids.iter().cloned().filter(|i| !m.out.iter().any(|o| o.id == *i) && !m.subs.contains(i) && !m.unsubs.contains(i) && !m.store.iter().any(|s| s.id == *i)).collect()
+    }
+
+    fn take_id(&mut self) -> Option<u32> {
+        match self.held().last().cloned() {
+            Some(i) => Some(i),
+            None => self.w.acquire(),
+        }
+    }
+
+    /// the peer can transmit: a transport exists and E has not asked to close it
+    fn peer_up(&self) -> bool {
+        self.w.m.st != St::Disc && !self.w.want_close
     }
 
     fn fault(&mut self, k: &'static str) {
@@ -256,7 +271,6 @@ impl Solo {
                 Ev::TimerReset(k, ms) => self.deadline[k.ix()] = Some(self.now_ms + ms),
                 Ev::TimerCancel(k) => self.deadline[k.ix()] = None,
                 Ev::Recv { pkt } => self.on_delivered(pkt),
-                Ev::Released(id) => self.held.retain(|x| x != id),
                 _ => {}
             }
         }
@@ -376,7 +390,6 @@ impl Solo {
                 }
                 self.connects += 1;
                 if *clean {
-                    self.held.clear();
                     self.peer_q2.clear();
                 }
             }
@@ -396,7 +409,6 @@ impl Solo {
                     self.app_send(&p);
                 }
                 if was == St::Connecting && self.w.m.st == St::Connected && !p.sp {
-                    self.held.clear();
                     self.peer_q2.clear();
                 }
             }
@@ -418,13 +430,7 @@ impl Solo {
                 }
                 p.payload = self.payload(*pad);
                 if *qos > 0 {
-                    let id = match self.held.pop() {
-                        Some(i) => i,
-                        None => match self.w.acquire() {
-                            Some(i) => i,
-                            None => return,
-                        },
-                    };
+                    let Some(id) = self.take_id() else { return };
                     p.id = Some(id);
                 }
                 let evs = self.app_send(&p);
@@ -435,6 +441,8 @@ impl Solo {
                         if let Ev::Send { rel, .. } = e {
                             any = true;
                             if let Some(id) = rel {
+                                // the failed write kills the connection; its flow-control bookkeeping is void
+                                self.w.m.flow_ambiguous = true;
                                 let r = self.w.release(*id);
                                 self.handle(&r);
                                 self.w.stats.hit("write_fail_released");
@@ -448,13 +456,7 @@ impl Solo {
                 }
             }
             Op::Sub | Op::Unsub => {
-                let id = match self.held.pop() {
-                    Some(i) => i,
-                    None => match self.w.acquire() {
-                        Some(i) => i,
-                        None => return,
-                    },
-                };
+                let Some(id) = self.take_id() else { return };
                 let mut p = Pkt::new(v, if *op == Op::Sub { SUBSCRIBE } else { UNSUBSCRIBE }).with_id(id);
                 p.filters = vec![("t/#".into(), if *op == Op::Sub { 1 } else { 0 })];
                 self.app_send(&p);
@@ -475,7 +477,7 @@ impl Solo {
                 self.app_send(&p);
             }
             Op::PeerAck { nth, how, rc } => {
-                if !self.connected() {
+                if !self.connected() || !self.peer_up() {
                     return;
                 }
                 let awaiting: Vec<(u32, Stage)> = self.w.m.out.iter().filter(|o| o.stage != Stage::GotPubrec).map(|o| (o.id, o.stage)).collect();
@@ -541,7 +543,7 @@ impl Solo {
             }
             Op::PeerPub { qos, id, dup, topic, alias, pad } => {
                 // a server never sends before its CONNACK; a client may pipeline after CONNECT
-                if self.w.m.st == St::Disc || (self.cfg.as_client && self.w.m.st != St::Connected && !self.cfg.lenient) {
+                if !self.peer_up() || (self.cfg.as_client && self.w.m.st != St::Connected && !self.cfg.lenient) {
                     return;
                 }
                 let mut p = Pkt::new(v, PUBLISH);
@@ -569,7 +571,7 @@ impl Solo {
                 self.peer_send(&p);
             }
             Op::PeerPubrel { id } => {
-                if self.w.m.st == St::Disc || (self.cfg.as_client && self.w.m.st != St::Connected && !self.cfg.lenient) {
+                if !self.peer_up() || (self.cfg.as_client && self.w.m.st != St::Connected && !self.cfg.lenient) {
                     return;
                 }
                 self.peer_q2.retain(|x| x != id);
@@ -600,7 +602,7 @@ impl Solo {
                 }
             }
             Op::PeerSuback { nth, wrong } => {
-                if !self.connected() {
+                if !self.connected() || !self.peer_up() {
                     return;
                 }
                 let mut pend: Vec<(u32, u8)> = self.w.m.subs.iter().map(|i| (*i, SUBACK)).collect();
@@ -625,7 +627,7 @@ impl Solo {
                 self.peer_send(&p);
             }
             Op::PeerSimple { kind } => {
-                if self.w.m.st == St::Disc {
+                if !self.peer_up() {
                     return;
                 }
                 let mut p = Pkt::new(v, *kind);
@@ -668,27 +670,23 @@ impl Solo {
                 self.handle(&evs);
             }
             Op::Acquire => {
-                if let Some(id) = self.w.acquire() {
-                    self.held.push(id);
-                }
+                self.w.acquire();
             }
             Op::Register { id } => {
-                if self.w.register(*id) {
-                    self.held.push(*id);
-                }
+                self.w.register(*id);
             }
             Op::Release { nth } => {
-                if self.held.is_empty() {
+                let held = self.held();
+                if held.is_empty() {
                     return;
                 }
-                let ix = *nth as usize % self.held.len();
-                let id = self.held[ix];
+                let id = held[*nth as usize % held.len()];
                 let evs = self.w.release(id);
                 self.handle(&evs);
             }
             Op::ReleaseRaw { id } => {
                 // never an id that an accepted send owns
-                if self.w.m.ids.contains(id) && !self.held.contains(id) {
+                if self.w.m.ids.contains(id) && !self.held().contains(id) {
                     return;
                 }
                 let evs = self.w.release(*id);
@@ -745,7 +743,6 @@ impl Solo {
                     self.do_close();
                 }
                 self.w.crash_restore(ExportMangle::None);
-                self.held.clear();
                 self.inbox.clear();
                 self.fault("crash_restart");
             }
@@ -828,7 +825,7 @@ impl Solo {
         if self.w.failed() || !self.connected() {
             return;
         }
-        while !self.held.is_empty() {
+        while !self.held().is_empty() {
             self.exec(&Op::Release { nth: 0 });
             if self.w.failed() {
                 return;
